@@ -102,6 +102,7 @@ type Sim struct {
 	Stats  map[string]int
 	Probes map[string]int
 
+	traceEnd      int
 	afterSettle   []func()
 	cliBudget     int
 	svcBudget     int
